@@ -46,12 +46,28 @@ def base_class_cases(model, payload):
         def ctx(pkgs):
             return EvalMainContext(None, whitelisted_packages=set(pkgs), start_globals={}, resolved_references=OrderedDict())
 
+        real = _introspect_class
+
+        class _Raised(Exception):
+            pass
+
+        def _introspect_class(c, a, g, stack):  # every class here is well formed: an error is itself a deviation
+            try:
+                return real(c, a, g, stack)
+            except BaseException as e:  # DDSException derives from BaseException
+                raise _Raised("%s: %s" % (type(e).__name__, str(e)[:200]))
+
         arg_ctx = FunctionArgContext(OrderedDict(), None)
         n = 0
         for name in ("P", "D1", "D2", "DX", "DD", "DM"):
             c = getattr(derived, name)
             g = ctx({"hc_acc"})
-            fis = _introspect_class(c, arg_ctx, g, [])
+            inp0 = {"class": "hc_acc.derived." + name, "bases": [b.__module__ + "." + b.__name__ for b in c.__bases__]}
+            try:
+                fis = _introspect_class(c, arg_ctx, g, [])
+                alone = _introspect_class(c, arg_ctx, ctx({"hc_acc.derived"}), [])
+            except _Raised as e:
+                return {"reproduced": True, "detail": "the analysis of a well-formed class raised (accepted: hc_acc, then hc_acc.derived only): %s" % e, "inputs": inp0}
             n += 1
             elig = [b for b in c.__bases__ if b is not object and inspect.getmodule(b) is not None and g.is_authorized_path(function_path(b))]
             tail = [x.fun_path for x in fis.parsed_body[len(fis.parsed_body) - len(elig):]] if elig else []
@@ -66,7 +82,6 @@ def base_class_cases(model, payload):
             if fis.store_path is not None:
                 return {"reproduced": True, "detail": "a class got a store path", "inputs": inp}
             # the signature of the class body alone: the same class analysed where only its own module is accepted
-            alone = _introspect_class(c, arg_ctx, ctx({"hc_acc.derived"}), [])
             if (fis.fun_return_sig != alone.fun_return_sig) != bool(elig):
                 return {"reproduced": True, "detail": "%d eligible base class(es) but the signature %s the signature of the class body alone" % (len(elig), "differs from" if not elig else "equals"), "inputs": inp}
             again = _introspect_class(c, arg_ctx, g, [])
